@@ -663,6 +663,7 @@ pub fn compile(path: &std::path::Path, o: &FontOpts) -> Result<Vec<u8>, String> 
         options.compile_debg = debg;
         fontc::generate_font(source, options).map_err(|e| {
             let s = format!("{e:?}");
+            if std::env::var_os("C05_VERBOSE").is_some() { eprintln!("c05font build error: {e}"); }
             format!("build:{}", s.split(|c: char| !c.is_alphanumeric()).next().unwrap_or(""))
         })
     });
@@ -787,7 +788,6 @@ pub fn decorate_design(rng: &mut Rng, d: &mut crate::e2e::design::Design, point:
         fea.push_str(&format!("feature {feat} {{\n  pos a b {};\n", scalar(rng, &real)));
         if rng.chance(2, 3) { fea.push_str(&format!("  pos b <0 0 {} 0>;\n", scalar(rng, &real))); }
         fea.push_str(&format!("}} {feat};\n"));
-        let fea = fea.replace("\\n", "\n");
         d.features = Some(match d.features.take() { Some(old) => format!("{old}\n{fea}"), None => fea });
         wrote = true;
     }
